@@ -74,8 +74,9 @@ end M
 section
 variable {P O : Type}
 
-/-- the ordering oracle: site ('Q','A','R'), the list as ranked by the engine → some order of it -/
-abbrev Oracle (P O : Type) := O → Char → List P → List P × O
+/-- the ordering oracle: has the clock already expired?, site ('Q','A','R'), the list as ranked
+    by the engine → some order of it -/
+abbrev Oracle (P O : Type) := O → Bool → Char → List P → List P × O
 
 def arrSize : Nat := Gen.maxDepth
 
@@ -91,8 +92,14 @@ def tick : M (SS P O) Bool := fun s =>
 
 def nodeSearched : M (SS P O) Unit := M.modify fun s => { s with nodes := s.nodes + 1 }
 
+/-- some consultation of the clock has already answered "out of time" -/
+def SS.expired (s : SS P O) : Bool :=
+  match s.expiry with
+  | some k => decide (k < s.queries)
+  | none => false
+
 def order (ord : Oracle P O) (site : Char) (l : List P) : M (SS P O) (List P) := fun s =>
-  let (l', o') := ord s.ord site l
+  let (l', o') := ord s.ord s.expired site l
   .ok l' { s with ord := o' }
 
 /-- `insert_into_cur_line` -/
